@@ -283,8 +283,48 @@ def native_part(prop, tier, tmp, only=None):
     if not exe:
         return dict(status='undecided', reason='native build of the scratch crate failed: ' + err[-400:], violations=[], evidence=ev, scratch=scratch)
     vs, rows, undec = [], [], []
+    exe_u = None
+    if prop == 'C18':
+        exe_u, err_u = build_native_runner(scratch, '--features unstable', toolchain='nightly', tag='unstable')
+        if not exe_u:
+            undec.append('nightly --features unstable build of the scratch crate failed: ' + err_u[-300:])
+        ev['differential'] = ('the same scenario harnesses are enumerated on two native builds of the crate - default features on the stable toolchain and '
+                              '`--features unstable` on the nightly toolchain - and the per-run hash of the observable trace (results, contents, destructor / clone order, '
+                              'Debug output, caught panics) must be identical for every choice vector')
     for e, n in pairs:
         nm = harness_name(e, n)
+        if prop == 'C18':
+            if not exe_u:
+                continue
+            try:
+                a = subprocess.run([exe, nm, 'trace', '3000000'], capture_output=True, text=True, timeout=900).stdout.split('\n')
+                bq = subprocess.run([exe_u, nm, 'trace', '3000000'], capture_output=True, text=True, timeout=900).stdout.split('\n')
+            except subprocess.TimeoutExpired:
+                undec.append('%s: trace enumeration timed out' % nm)
+                continue
+            end_a = [l for l in a if l.startswith('TRACE-END')]
+            end_b = [l for l in bq if l.startswith('TRACE-END')]
+            la = [l for l in a if l and not l.startswith('TRACE-END')]
+            lb = [l for l in bq if l and not l.startswith('TRACE-END')]
+            diff = None
+            for x, y in zip(la, lb):
+                if x != y:
+                    diff = (x, y)
+                    break
+            if diff is None and len(la) != len(lb):
+                diff = ('%d runs' % len(la), '%d runs' % len(lb))
+            rows.append(dict(scenario=nm, N=n, runs_default=len(la), runs_unstable=len(lb), complete=bool(end_a and 'complete=true' in end_a[0] and end_b and 'complete=true' in end_b[0]), identical=diff is None))
+            if not end_a or not end_b or not la:
+                undec.append('%s: trace run produced no output' % nm)
+            elif diff is not None:
+                ch = diff[0].split(' ')[0]
+                # verbose traces of the first differing run
+                envv = dict(os.environ, VERIF_TRACE_VERBOSE='1')
+                va = subprocess.run([exe, nm, 'run', ch], capture_output=True, text=True, timeout=120, env=envv).stdout[-600:]
+                vs.append(dict(property=prop, leg='native-bounded', function=e['fn'], obligation='[C18] observable trace differs between the default build and the `unstable` build', n=n, harness=nm,
+                               detail='%s at N=%d: default build %r vs unstable build %r' % (e['fn'], n, diff[0][:120], diff[1][:120]), verifier_output='default: %s\nunstable: %s' % diff,
+                               prefound=dict(harness=nm, choices=ch, inputs='choice vector ' + ch, message='trace hash differs: default %s / unstable %s' % (diff[0], diff[1]), runs=len(la))))
+            continue
         r = replay_search(exe, nm, '', budget=5000000, timeout=900)
         rows.append(dict(scenario=nm, N=n, status=r.get('status'), runs=r.get('runs')))
         if r.get('status') == 'hit':
@@ -311,9 +351,9 @@ def native_part(prop, tier, tmp, only=None):
 RUNNER_MAIN = 'fn main() { circular_buffer::verif_kani::replay_main(); }\n'
 
 
-def build_native_runner(scratch, features=''):
+def build_native_runner(scratch, features='', toolchain=None, tag='native'):
     """compile the scratch crate natively with --cfg verif_replay + a runner binary; returns path or None"""
-    rdir = os.path.join(scratch, 'replay_runner')
+    rdir = os.path.join(scratch, 'replay_runner_' + tag)
     os.makedirs(os.path.join(rdir, 'src'), exist_ok=True)
     open(os.path.join(rdir, 'src', 'main.rs'), 'w').write(RUNNER_MAIN)
     feats = ''
@@ -324,9 +364,10 @@ def build_native_runner(scratch, features=''):
     env = dict(os.environ)
     env['CARGO_NET_OFFLINE'] = 'true'
     env['RUSTFLAGS'] = '--cfg verif_replay -A warnings'
-    env['CARGO_TARGET_DIR'] = os.path.join(scratch, 'target_native')
-    p = subprocess.run(['cargo', 'build', '--offline', '--quiet'], cwd=rdir, env=env, capture_output=True, text=True, timeout=600)
-    exe = os.path.join(scratch, 'target_native', 'debug', 'replay_runner')
+    env['CARGO_TARGET_DIR'] = os.path.join(scratch, 'target_' + tag)
+    cargo = ['cargo'] + (['+' + toolchain] if toolchain else [])
+    p = subprocess.run(cargo + ['build', '--offline', '--quiet'], cwd=rdir, env=env, capture_output=True, text=True, timeout=900)
+    exe = os.path.join(scratch, 'target_' + tag, 'debug', 'replay_runner')
     if p.returncode != 0 or not os.path.exists(exe):
         return None, (p.stderr or '')[-1500:]
     return exe, ''
@@ -373,6 +414,9 @@ def related_harnesses(prop, fnkey):
 
 def do_replay(path):
     doc = json.load(open(path))
+    if doc.get('property') == 'C18' and doc.get('leg') == 'native-bounded':
+        log('C18 differential finding: two builds are needed to replay it; re-running the check instead')
+        return None
     hit = doc.get('failing_input') or {}
     if not hit or not hit.get('choices') and hit.get('choices') != '':
         log('replay file carries no concrete input (no-failing-input-found); re-running the check instead')
